@@ -35,6 +35,11 @@ func genReopen(r *Rand, d *dFile) *dFile {
 				// a field of the first declaration declared again, now as a collection
 				if len(t.Fields) > 0 && r.Chance(1, 2) {
 					f0 := t.Fields[r.Intn(len(t.Fields))]
+					for _, cand := range t.Fields { // prefer a field whose name is written with an escape
+						if strings.Contains(cand.Name, "-") {
+							f0 = cand
+						}
+					}
 					nt.Fields = append(nt.Fields, dField{Name: f0.Name, Ty: dType{Wrap: Pick(r, []string{"set", "seq"}), Prim: "string", RefApp: []string{}, RefPath: []string{}}, Attrs: dAttrs{Tags: []string{}, KV: []dKV{}}})
 				}
 				na.Types = append(na.Types, nt)
@@ -49,6 +54,11 @@ func genReopen(r *Rand, d *dFile) *dFile {
 				ss := g.stmts(a.Parts, 1, 1+r.Intn(3))
 				if ss[0].doc != nil { // a doc-string opening a re-opened body would join one that closes the first body
 					ss[0] = dStmt{K: "action", T: "resume"}
+				}
+				if r.Chance(1, 4) {
+					// mentioned again in the one-line placeholder form
+					na.Eps = append(na.Eps, dEp{Name: e.Name, shortcut: true, Params: []dParam{}, Stmts: []dStmt{}, Attrs: dAttrs{Tags: []string{}, KV: []dKV{}}})
+					continue
 				}
 				if r.Chance(1, 3) {
 					// declared again with annotation lines only: no statement is added
